@@ -43,6 +43,7 @@ type Up4Gen struct {
 	OneFlow      bool
 	PeerBase     int // the generator's peers are p<PeerBase+1>..
 	SessionOnly  bool
+	EndMarkers   bool // FAR updates ask for end markers (SNDEM) most of the time
 }
 
 type uflow struct {
@@ -447,6 +448,12 @@ func (g *Up4Gen) ModifyKind(s *usess, kind int) {
 	switch {
 	case kind < 4: // every downlink FAR of the session: buffer <-> forward, handover to another gNB
 		nf := g.dlFar(0, true)
+
+		if g.EndMarkers && g.R.Intn(4) > 0 {
+			nf.HasFP, nf.SNDEM = true, true
+		} else if g.EndMarkers && g.R.Intn(2) == 0 {
+			nf.SMReq = nf.HasFP // the flags IE is present without SNDEM
+		}
 
 		for _, f := range s.flows {
 			x := nf
